@@ -4,14 +4,16 @@
    [fam, lab, tree, comp, compile, clean, exp, kwq] where exp = Expect(tree) is the
    verdict the property prescribes (computed here, never in Go or Python).        *)
 EXTENDS YangStmtTpl, Json
-CONSTANTS Fams, MaxCount, NRand, RandDepth, Thorough
+CONSTANTS Fams, MaxCount, NRand, RandDepth, Thorough, BigK, HistBad, HistOk
 VARIABLES fam, done
 
 ParentSeq == SetToSeq(ParentIds)          \* families 1..Len(ParentSeq): cardinality probes of one parent
 SitesFor(kind) == IF Thorough \/ kind # "identifier" THEN SitesOf(kind)
                   ELSE {s \in SitesOf(kind) : s[1] \in {"module", "leaf", "prefix", "import", "typedef", "bit", "case", "feature"}}
 SiteSeq == SetToSeq(UNION {{<<k, s>> : s \in SitesFor(k)} : k \in JudgedKinds})   \* families 101..: one argument kind on one statement
-AllFams == (1..Len(ParentSeq)) \cup {100 + i : i \in 1..Len(SiteSeq)} \cup {200, 201, 202, 203, 300}
+\* 401.. / 205: large multiplicities (cells, data-definition aggregate); 302 / 303 and 500..: histories
+AllFams == (1..Len(ParentSeq)) \cup {100 + i : i \in 1..Len(SiteSeq)} \cup {200, 201, 202, 203, 205, 300, 302, 303}
+           \cup {400 + i : i \in 1..Len(ParentSeq)} \cup {500 + i : i \in 1..Len(SiteSeq)}
 
 Probe(f, lab, tree, clean) ==
   [fam |-> f, lab |-> lab, tree |-> tree, comp |-> Companions(tree), compile |-> TRUE, clean |-> clean,
@@ -25,6 +27,25 @@ OrderProbes(f) == LET root == IF f = 200 THEN "module" ELSE "submodule" IN
 RevProbes == UNION {{Probe(202, <<"rev", root, "", "">>, t, TRUE) : t \in RevTrees(root)} : root \in {"module", "submodule"}}
 KwProbes == {[fam |-> 203, lab |-> <<"kw", k, "", "">>, kwq |-> k, known |-> k \in Keywords] :
                k \in Keywords \cup {ExtKw, "foo", "yin", "p:leaf", "yin_element", "leaflist"}}
+BigTotals == {255, 256, 257, 512}
+HugeTotals == {65535, 65536, 65537}
+BigProbe(P, C, T) ==
+  LET d == BigExpand(P, C, T) IN
+  [fam |-> 204, lab |-> <<"big", P, C, ToString(T)>>, tree |-> d[1], expand |-> d[2], comp |-> Companions(d[1]),
+   compile |-> T <= 600 \/ CellVerdict(P, C, T) = "reject",      \* compiling 65536 valid statements is slow; a deferred rejection is not
+   clean |-> BigClean(P, C, T), exp |-> BigExpect(P, C, T, d[3]), kwq |-> ""]
+BigProbes(f) == LET P == ParentSeq[f - 400] IN
+  UNION {{BigProbe(P, C, T) : T \in BigTotals} : C \in BigCells(P, BigK)}
+  \cup (IF Thorough /\ P \in {"container", "list", "leaf", "module", "type"}
+        THEN UNION {{BigProbe(P, C, T) : T \in HugeTotals} : C \in BigCells(P, 1)} ELSE {})
+AggProbes ==
+  {LET d == AggExpand(P, T) IN
+   [fam |-> 205, lab |-> <<"big", P, "data-def aggregate", ToString(T)>>, tree |-> d[1], expand |-> d[2], comp |-> << >>,
+    compile |-> T <= 600, clean |-> T <= 600, exp |-> [verdict |-> "accept", locate |-> FALSE, bad |-> {}], kwq |-> ""]
+   : P \in {"list", "container", "grouping", "case", "input", "notification", "augment"}, T \in BigTotals \cup (IF Thorough THEN HugeTotals ELSE {})}
+Hist(label, hs) == {[label |-> label, seq |-> h] : h \in hs}
+SiteHist(f) == LET kind == SiteSeq[f - 500][1]  s == SiteSeq[f - 500][2] IN
+  Hist(<<"arg", kind, s[1]>>, ArgHistories(kind, s, HistBad, HistOk))
 RandBases == {[id |-> i, tree |-> RandTree(i, RandDepth), pool |-> RandPool(i)] : i \in 1..NRand}
 
 Out(f) == "vec_" \o ToString(f) \o ".ndjson"
@@ -36,5 +57,10 @@ GNext == /\ ~done /\ done' = TRUE /\ UNCHANGED fam
               ELSE IF fam \in {200, 201} THEN OrderProbes(fam)
               ELSE IF fam = 202 THEN RevProbes
               ELSE IF fam = 203 THEN KwProbes
-              ELSE RandBases))
+              ELSE IF fam \in 401..499 THEN BigProbes(fam)
+              ELSE IF fam = 205 THEN AggProbes
+              ELSE IF fam = 300 THEN RandBases
+              ELSE IF fam = 302 THEN Hist(<<"cross", "", "">>, CrossHistories(IF Thorough THEN 1000 ELSE 80))
+              ELSE IF fam = 303 THEN Hist(<<"card", "", "">>, CardHistories(IF Thorough THEN 68 ELSE 12))
+              ELSE SiteHist(fam)))
 =============================================================================
